@@ -552,6 +552,21 @@ example : dispatch (fun c => if c = [97] then .exited 1 else .exited 0) (fun _ =
 example : LocalSpec.loops [97] [104] ([88, 58, 10] ++ LocalSpec.dtline [97] [104] ++ [10, 98, 10]) = true := by decide
 example : LocalSpec.loops [97] [104] ([88, 58, 10, 10] ++ LocalSpec.dtline [97] [104]) = false := by decide
 
+/-- the documented outcome on a concrete setting: recipient u-a@h, home 0700, `.qmail-a` = "&f@x", "|p", "./mb" (mode 0600),
+the command exits 99, sender s@x, no owner file: exit 0, the command was run, then one copy to f@x; the mbox line is dropped -/
+def exSetting : LocalSpec.Setting :=
+  { doit := true, homeMode := 0o700, loc := [117, 45, 97], dash := [45], ext := [97], host := [104], sender := [115, 64, 120],
+    dflt := [46, 47, 77], msg := [88, 58, 10, 10],
+    look := fun n => if n = [46, 113, 109, 97, 105, 108, 45, 97] then .file 0o600 [38, 102, 64, 120, 10, 124, 112, 10, 46, 47, 109, 98, 10] else .missing,
+    present := fun _ => some false, run := fun _ => .exited 99, fileOK := fun _ => 0, queueReply := [] }
+
+example : (LocalSpec.outcome exSetting).code = 0 ∧
+    (LocalSpec.outcome exSetting).effects = [.program [112], .queue [115, 64, 120] [[102, 64, 120]]] := by decide
+/-- the same with a world-writable home directory: 111 and nothing happens; with no control file at all: 100 -/
+example : (LocalSpec.outcome { exSetting with homeMode := 0o702 }).code = 111 ∧
+    (LocalSpec.outcome { exSetting with homeMode := 0o702 }).effects = [] := by decide
+example : (LocalSpec.outcome { exSetting with look := fun _ => .missing }).code = 100 := by decide
+
 /-- recipient "a\nB" at host "h": the newline becomes '_' -/
 example : dtline [97, 10, 66] [104] = [68, 101, 108, 105, 118, 101, 114, 101, 100, 45, 84, 111, 58, 32, 97, 95, 66, 64, 104, 10] := by
   decide
